@@ -59,7 +59,7 @@ Definition gwf (c : gcase) : bool :=
       gtab_ok t && wf_uivk k && match f with Some fk => wf_ufvk fk | None => true end
       && (scope <=? NON_HARDENED_MAX) && wf_request r
       && (gl_external g <? 4294967296) && (gl_internal g <? 4294967296) && (gl_ephemeral g <? 4294967296)
-      && match find with Ok (Some gs) => gs <=? NON_HARDENED_MAX | _ => true end
+      && match find with Ok (Some gs) => gs <=? NON_HARDENED_MAX | Panic => false | _ => true end
   end.
 
 Definition ores_isb (r : ores) (b : bytes) : bool := match r with OSome x => bytes_eqb x b | _ => false end.
